@@ -41,7 +41,9 @@ import (
 //   Marshal(x) twice gives the same bytes; x.Size() == len(bytes);
 //   Unmarshal(bytes) into a fresh (or, in a quarter of the cases, a dirty pre-filled) object y succeeds;
 //   the generated x.Equal(y) and y.Equal(x) hold, an independent reflect-based comparison finds no
-//   differing field, and Marshal(y) == bytes.
+//   differing field, and Marshal(y) == bytes;
+//   the decoded y owns its data: after every byte of the buffer it was decoded from is overwritten, y still equals x
+//   and encodes to the same bytes; after the slices returned by Marshal are overwritten, x and y are unchanged.
 //
 // Equality notion of the reflect-based comparison (documented domain facts of the wire format):
 //   * a nil and an empty []byte / repeated field are the same value (proto3 omits both; the decoder
@@ -583,7 +585,10 @@ func verifC45CheckValue(c *kit.Case, name string, x, y verifC45Obj) []byte {
 	if size != len(b1) {
 		c.Violation(k("size"), "Size() = %d, encoding has %d bytes, for %s", size, len(b1), verifC45Describe(x))
 	}
-	c.NoPanic(k("unmarshal-panic"), func() { err = m.Unmarshal(y, b1) })
+	// the decode buffer is a separate "receive buffer" holding a copy of the encoding
+	orig := append([]byte{}, b1...)
+	buf := append([]byte{}, b1...)
+	c.NoPanic(k("unmarshal-panic"), func() { err = m.Unmarshal(y, buf) })
 	if err != nil {
 		c.Violation(k("unmarshal-error"), "Unmarshal of own encoding %x failed: %v for %s", b1, err, verifC45Describe(x))
 	}
@@ -603,7 +608,40 @@ func verifC45CheckValue(c *kit.Case, name string, x, y verifC45Obj) []byte {
 	if y.Size() != len(b1) {
 		c.Violation(k("size"), "Size() of decoded value = %d, encoding has %d bytes", y.Size(), len(b1))
 	}
-	return b1
+	// The decoded structure must own its data: the buffer it was decoded from is reused by its owner afterwards
+	// (storageUnit.Unit.Get hands out the byte slice kept in its cache, Unit.Put keeps the slice it is given, p2p
+	// message buffers outlive the interceptor call). Overwrite every byte of the decode buffer: y must still be
+	// the structure that was encoded, and must still encode to the same bytes.
+	verifC45Scribble(buf)
+	if d = verifC45Diff(reflect.ValueOf(x), reflect.ValueOf(y), name); d != "" {
+		c.Violation(k("decoded-aliases-buffer"), "the decoded value changed when the buffer it was decoded from was overwritten: %s; original %s", d, verifC45Describe(x))
+	}
+	var b4, b5 []byte
+	c.NoPanic(k("marshal-panic"), func() { b4, err = m.Marshal(y) })
+	if err != nil || !bytes.Equal(orig, b4) {
+		c.Violation(k("decoded-aliases-buffer"), "after the decode buffer was overwritten the decoded value encodes to %x instead of %x (err %v); original %s", b4, orig, err, verifC45Describe(x))
+	}
+	// Likewise the bytes returned by Marshal belong to the caller (they are stored, sent, hashed): overwriting them
+	// must change neither the encoded value nor the value decoded earlier.
+	verifC45Scribble(b1)
+	verifC45Scribble(b2)
+	verifC45Scribble(b3)
+	verifC45Scribble(b4)
+	c.NoPanic(k("marshal-panic"), func() { b5, err = m.Marshal(x) })
+	if err != nil || !bytes.Equal(orig, b5) {
+		c.Violation(k("encoding-aliases-value"), "after the bytes returned by Marshal were overwritten the same value encodes to %x instead of %x (err %v); original %s", b5, orig, err, verifC45Describe(x))
+	}
+	if d = verifC45Diff(reflect.ValueOf(x), reflect.ValueOf(y), name); d != "" {
+		c.Violation(k("encoding-aliases-value"), "a value changed when the bytes returned by Marshal were overwritten: %s; original %s", d, verifC45Describe(x))
+	}
+	return orig
+}
+
+// verifC45Scribble changes every byte of b in place.
+func verifC45Scribble(b []byte) {
+	for i := range b {
+		b[i] ^= 0xa5
+	}
 }
 
 func verifC45Mix(x uint64) uint64 {
@@ -770,6 +808,7 @@ func verifC45FuzzOne(t *testing.T, name string, newObj func() verifC45Obj, data 
 	m := &marshal.GogoProtoMarshalizer{}
 	k := func(slug string) string { return "C45:" + name + ":fuzz-" + slug }
 	x := newObj()
+	buf := append([]byte{}, data...) // private copy: it is overwritten below, the fuzz engine owns data
 	var err error
 	func() {
 		defer func() {
@@ -777,7 +816,7 @@ func verifC45FuzzOne(t *testing.T, name string, newObj func() verifC45Obj, data 
 				kit.FailPlain(t, "C45", k("unmarshal-panic"), "Unmarshal(%x) panics: %v", data, r)
 			}
 		}()
-		err = m.Unmarshal(x, data)
+		err = m.Unmarshal(x, buf)
 	}()
 	if err != nil {
 		return
@@ -811,6 +850,12 @@ func verifC45FuzzOne(t *testing.T, name string, newObj func() verifC45Obj, data 
 		b2, err = m.Marshal(x1)
 		if err != nil || !bytes.Equal(b1, b2) {
 			kit.FailPlain(t, "C45", k("no-fixed-point"), "accepted input %x: first re-encoding %x, second %x (err %v)", data, b1, b2, err)
+		}
+		// the decoded value owns its data: overwriting the buffer it came from does not change it
+		verifC45Scribble(buf)
+		b3, err3 := m.Marshal(x)
+		if err3 != nil || !bytes.Equal(b1, b3) {
+			kit.FailPlain(t, "C45", k("decoded-aliases-buffer"), "accepted input %x: after the decode buffer was overwritten the decoded value encodes to %x instead of %x (err %v)", data, b3, b1, err3)
 		}
 	}()
 }
